@@ -613,6 +613,76 @@ theorem trace_shape (InS : List Rat → Prop) (priorF likF : List Rat → EV) :
         · obtain ⟨h1, h2⟩ := hall pop hp
           exact ⟨by rw [h1]; simp [hl2], h2⟩
 
+/-! ## 4b. the whole loop: exponents produced by the bisection, populations by the stage step -/
+
+/-- successive recorded exponents: strictly increasing (and at most 1) while below 1; after 1 only the
+terminal entry 1 follows -/
+def StepOK (a b : Rat) : Prop := (a < 1 ∧ a < b ∧ b ≤ 1) ∨ (a = 1 ∧ b = 1)
+
+/-- ★ the statement for the executed stage loop, for an arbitrary ESS oracle per stage: every recorded
+exponent strictly exceeds the previous one and is at most 1; if the loop terminates, the last stage has
+exponent exactly 1 (the terminal entry 1 can only follow an entry equal to 1); every stage records `N`
+particles, all inside the prior support. -/
+theorem run_statement (InS : List Rat → Prop) (priorF likF : List Rat → EV) (c : Consts) (htol : 0 ≤ c.tol) :
+    ∀ (envs : List StageEnv) (β prev : Rat) (ps : List Particle) (tr : List (Rat × List Particle)) (fin : Bool),
+    β ≤ 1 → PopOK InS priorF likF β ps → (∀ e ∈ envs, MovesOK InS priorF likF e.moves) →
+    runLoop c envs β prev ps = .ok tr fin →
+    List.IsChain StepOK (β :: tr.map (·.1)) ∧
+    (∀ e ∈ tr, e.2.length = ps.length ∧ ∀ p ∈ e.2, InS p.x) ∧
+    (fin = true → (tr.map (·.1)).getLast? = some 1) := by
+  intro envs
+  induction envs with
+  | nil =>
+    intro β prev ps tr fin hβ hpop _ h
+    simp only [runLoop] at h
+    split_ifs at h with hlt
+    · simp at h; obtain ⟨rfl, rfl⟩ := h; simp
+    · simp at h; obtain ⟨rfl, rfl⟩ := h
+      have hb1 : β = 1 := le_antisymm hβ (not_lt.mp hlt)
+      refine ⟨by simp [StepOK, hb1], ?_, by simp⟩
+      intro e he; simp at he; subst he
+      exact ⟨rfl, fun p hp => (hpop p hp).1⟩
+  | cons e es ih =>
+    intro β prev ps tr fin hβ hpop hmv h
+    simp only [runLoop] at h
+    split_ifs at h with hlt
+    · split at h
+      · simp at h
+      · simp at h
+      · rename_i b' ess' cl hcb
+        split at h
+        · simp at h
+        · rename_i cap nxt hst
+          split at h
+          · rename_i tr' fin' hrec
+            simp at h; obtain ⟨rfl, rfl⟩ := h
+            have hgt := beta_strictly_increases c e.ess β prev b' ess' cl htol hlt hcb
+            have hle := beta_le_one c e.ess β prev b' ess' cl hcb
+            obtain ⟨_, hl2, _, hok⟩ := stage_invariant InS priorF likF β b' ps e.ids e.moves cap nxt hpop
+              (hmv e (by simp)) hst
+            obtain ⟨hch, hsh, hfin⟩ := ih b' ess' (nxt.map (·.1)) tr' fin' hle hok
+              (fun t ht => hmv t (by simp [ht])) hrec
+            refine ⟨?_, ?_, ?_⟩
+            · simp only [List.map_cons]
+              exact List.IsChain.cons_cons (Or.inl ⟨hlt, hgt, hle⟩) hch
+            · intro x hx
+              rcases List.mem_cons.mp hx with rfl | hx'
+              · exact ⟨rfl, fun p hp => (hpop p hp).1⟩
+              · obtain ⟨h1, h2⟩ := hsh x hx'
+                exact ⟨by rw [h1]; simp [hl2], h2⟩
+            · intro hf
+              have := hfin hf
+              cases tr' with
+              | nil => simp at this
+              | cons a t => simpa [List.getLast?_cons_cons] using this
+          · rename_i r hne
+            exact absurd h (hne _ _)
+    · simp at h; obtain ⟨rfl, rfl⟩ := h
+      have hb1 : β = 1 := le_antisymm hβ (not_lt.mp hlt)
+      refine ⟨by simp [StepOK, hb1], ?_, by simp⟩
+      intro e he; simp at he; subst he
+      exact ⟨rfl, fun p hp => (hpop p hp).1⟩
+
 /-! ## 5. non-vacuity: concrete instances of the hypotheses used above -/
 
 /-- a step-shaped antitone ESS: 100 up to exponent 1/4, then 90 (target 95 for `prev = 100`) -/
@@ -684,5 +754,11 @@ example : MovesOK exIn exPrior exLik exStage.moves := by
 
 /-- `exp`-form of the acceptance rule instantiated with a strictly increasing map on ℚ -/
 example : StrictMono (fun x : Rat => x + 1) := fun a b h => by simpa using h
+
+/-- a whole run: two particles, one stage whose ESS never drops (exponent clamped to 1), then the loop
+stops; the trace is `[(1, exPop), (1, mutated)]` and the run is finished -/
+example : (match runLoop consts [⟨fun _ => .val 60, [1, 1], [⟨exProps, [-1, -1/8]⟩, ⟨[], []⟩]⟩] 0 2 exPop with
+    | .ok tr true => decide (tr.map (·.1) = [1, 1]) && (tr.map (·.2.length) == [2, 2])
+    | _ => false) = true := by decide +kernel
 
 end Pun.Tmcmc
